@@ -758,3 +758,69 @@ func TestKnownFindings(t *testing.T) {
 		probe.F14("C13")
 	}
 }
+
+// ---------------------------------------------------------------------------
+// Layered merges: the number of merge paths is exponential in the depth while the merged content is
+// tiny, so the size bound above (which follows every alias) would skip these documents although
+// their expansion IS bounded. They are built here by shape, parsed under a watchdog and checked
+// against the content the merge rules give.
+
+var recLayered = ev.New("TestLayeredMergesParse", "pipelines whose command step merges the last of 8 / 24 / 40 / 64 layered anchored mappings, every layer merging the previous one twice - as `<<: [*p, *p]`, as two `<<` entries, or as a diamond through two intermediate layers: Parse must return within 20 s (watchdog; milliseconds on the unchanged library), the step is a command step carrying the first layer's env and label, marshalling succeeds; non-trivial = depth >= 24; distinct by construction")
+
+func TestLayeredMergesParse(t *testing.T) {
+	ev.SkipIfReplayingOther(t)
+	for _, depth := range []int{8, 24, 40, 64} {
+		for shape := 0; shape < 3; shape++ {
+			var b strings.Builder
+			b.WriteString("x-defs:\n  l0: &l0\n    label: base\n    env: {K: v}\n")
+			for i := 1; i <= depth; i++ {
+				switch shape {
+				case 0:
+					fmt.Fprintf(&b, "  l%d: &l%d\n    <<: [*l%d, *l%d]\n", i, i, i-1, i-1)
+				case 1:
+					fmt.Fprintf(&b, "  l%d: &l%d\n    <<: *l%d\n    x%d: 1\n    <<: *l%d\n", i, i, i-1, i, i-1)
+				default:
+					fmt.Fprintf(&b, "  l%da: &l%da\n    <<: *l%d\n  l%db: &l%db\n    <<: *l%d\n  l%d: &l%d\n    <<: [*l%da, *l%db]\n", i, i, i-1, i, i, i-1, i, i, i, i)
+				}
+			}
+			fmt.Fprintf(&b, "steps:\n  - command: echo\n    <<: *l%d\n", depth)
+			text := b.String()
+			type res struct {
+				p   *pipeline.Pipeline
+				err error
+			}
+			done := make(chan res, 1)
+			go func() {
+				var r res
+				defer func() {
+					if x := recover(); x != nil {
+						r.err = fmt.Errorf("PANIC: %v", x)
+					}
+					done <- r
+				}()
+				r.p, r.err = pipeline.Parse(strings.NewReader(text))
+			}()
+			var r res
+			select {
+			case r = <-done:
+			case <-time.After(20 * time.Second):
+				ev.FailCase(t, map[string]any{"depth": depth, "shape": shape, "document": text}, "Parse did not return within 20 s on a %d-byte document of %d layered merges (shape %d) whose merged content is a handful of keys", len(text), depth, shape)
+			}
+			if r.err != nil {
+				t.Fatalf("depth %d shape %d: Parse: %v\n%s", depth, shape, r.err, text)
+			}
+			cs, ok := r.p.Steps[0].(*pipeline.CommandStep)
+			if !ok || cs.Label != "base" || cs.Env["K"] != "v" || cs.Command != "echo" {
+				t.Fatalf("depth %d shape %d: the step does not carry the merged content: %#v\n%s", depth, shape, r.p.Steps[0], text)
+			}
+			if _, err := json.Marshal(r.p); err != nil {
+				t.Fatalf("depth %d shape %d: json.Marshal: %v", depth, shape, err)
+			}
+			if _, err := yaml.Marshal(r.p); err != nil {
+				t.Fatalf("depth %d shape %d: yaml.Marshal: %v", depth, shape, err)
+			}
+			recLayered.Case(ev.HashStr(text), depth >= 24, fmt.Sprintf("shape=%d", shape))
+		}
+	}
+	recLayered.Exhaustive()
+}
